@@ -19,11 +19,11 @@ def flavours_for(tier, seed, allowed=(0, 1, 2, 3)):
 
 def tier_params(tier):
     if tier == 'thorough':
-        return dict(w=5, u1_depth=5, u2_depth=3, two_depth=4, u3_depth=2)
-    return dict(w=4, u1_depth=4, u2_depth=2, two_depth=3, u3_depth=1)
+        return dict(w=5, u1_depth=6, u2_depth=3, two_depth=4, u3_depth=2)
+    return dict(w=4, u1_depth=5, u2_depth=2, two_depth=3, u3_depth=1)
 
 
-def explore_universes(spec, conf, tier, which=('U1', 'U2', 'TWO', 'U3'), keep_states=False, params=None, opfilter=None):
+def explore_universes(spec, conf, tier, which=('U0', 'U1', 'U2', 'TWO', 'U3'), keep_states=False, params=None, opfilter=None):
     """run the named universes for one configuration with a shared de-duplication set;
     returns (merged Result, per-universe summary list)"""
     p = dict(tier_params(tier))
@@ -33,6 +33,8 @@ def explore_universes(spec, conf, tier, which=('U1', 'U2', 'TWO', 'U3'), keep_st
     total = engine.Result()
     summary = []
     plans = []
+    if 'U0' in which:
+        plans.append(('U0', U.alphabet_U0(conf), p.get('u0_depth', 8), ()))
     if 'U1' in which:
         plans.append(('U1', U.alphabet_U1(conf), p['u1_depth'], ()))
     if 'U2' in which:
@@ -48,7 +50,8 @@ def explore_universes(spec, conf, tier, which=('U1', 'U2', 'TWO', 'U3'), keep_st
         r = engine.bfs(spec, conf, alpha, depth, seeds=seeds, seen=seen, keep_states=keep_states)
         summary.append({'universe': name, 'conf': U.conf_name(conf), 'alphabet': len(alpha), 'depth': depth,
                         'seeds': len(seeds), 'states': r.states, 'transitions': r.transitions,
-                        'per_depth_new_states': r.per_depth, 'outcomes': dict(r.outcomes), 'dead': r.dead})
+                        'per_depth_new_states': r.per_depth, 'outcomes': dict(r.outcomes), 'dead': r.dead,
+                        'state_space_closed': r.closed})
         r.merge_into(total)
         if keep_states:
             total.state_hists += r.state_hists
@@ -89,7 +92,7 @@ class StateSpec(engine.Spec):
 
 
 def run_state_property(prop, level, fn, tier, seed, classes=('DynGraph', 'DynDiGraph'), modes=(True,),
-                       which=('U1', 'U2', 'TWO', 'U3'), flavours=(0, 1, 2, 3), rule='', params=None,
+                       which=('U0', 'U1', 'U2', 'TWO', 'U3'), flavours=(0, 1, 2, 3), rule='', params=None,
                        assumptions=(), vacuity=None, sample_fn=None, opfilter=None):
     known = common.load_known()
     rep = common.Report(prop, tier, seed, level)
